@@ -21,6 +21,8 @@ ASSUMPTIONS = [
     "which thread serves which request is observed and fed to the model, the theorems hold for every assignment",
     "user methods are arbitrary sequences of context reads and response-annotation writes followed by return or raise",
     "Daemon.annotations() is a constant of the daemon (it is overridable user code)",
+    "late scheduling of a oneway thread is forced by wrapping _OnewayCallThread.run in the harness process (the thread waits on an event before the original run())",
+    "a request whose peer reset the connection while it was queued is fed to the model with the address field None iff getpeername() fails on that connection when handleRequest is entered",
     "a nested Proxy call made by a method from the serving thread shares the thread's context with the server side; not modelled",
     "the correlation id the handshake and PING code stores in the context is not modelled (every method call is preceded by the set-up that overwrites it)",
 ]
@@ -68,8 +70,8 @@ class World:
         self.lock = threading.Lock()
         self.snaps = {}         # tok -> raw snapshot dict
         self.done = set()       # tokens of finished method invocations
-        self.hs = []            # (peer port, thread) per _handshake call
-        self.reqs = []          # (peer port, thread, correlation id left in the context) per handleRequest call
+        self.hs = []            # (peer port, thread, server-side connection object) per _handshake call
+        self.reqs = []          # [connection object, thread, could the peer address be determined?] per handleRequest call
         self.gates = {}
         self.entered = {}
         self.threads = []       # strong references: index = model thread id
@@ -99,12 +101,8 @@ def make_target(world):
             try:
                 for st in steps:
                     if st[0] == "snap":
-                        try:
-                            cport = peer_port(cc.client) if cc.client is not None else None
-                        except Exception:
-                            cport = -1
                         world.snaps[st[1]] = {
-                            "thread": threading.current_thread(), "client": cport, "client_sock_addr": cc.client_sock_addr,
+                            "thread": threading.current_thread(), "client": cc.client, "client_sock_addr": cc.client_sock_addr,
                             "seq": cc.seq, "msg_flags": cc.msg_flags, "serializer_id": cc.serializer_id,
                             "annotations": {k: bytes(v) for k, v in dict(cc.annotations).items()},
                             "correlation_id": cc.correlation_id}
@@ -152,6 +150,37 @@ class Stopper:
 
 _STOPPER = None
 _CONFIG_SAVED = None
+_PARK = {"armed": False, "started": None, "release": None, "thread": None}
+_ORIG_ONEWAY_RUN = None
+
+
+def patch_oneway_thread():
+    """scheduling control for `late` oneway calls: when armed, the next oneway thread is held at the very start of its
+    run() (before it restores the context it was given) until the harness releases it; nothing else is altered"""
+    global _ORIG_ONEWAY_RUN
+    import Pyro5.server as ps
+    if _ORIG_ONEWAY_RUN is not None:
+        return
+    _ORIG_ONEWAY_RUN = ps._OnewayCallThread.run
+    orig = _ORIG_ONEWAY_RUN
+
+    def run(self):
+        if _PARK["armed"]:
+            _PARK["armed"] = False
+            _PARK["thread"] = threading.current_thread()
+            release = _PARK["release"]
+            _PARK["started"].set()
+            release.wait(60)
+        orig(self)
+    ps._OnewayCallThread.run = run
+
+
+def unpatch_oneway_thread():
+    global _ORIG_ONEWAY_RUN
+    if _ORIG_ONEWAY_RUN is not None:
+        import Pyro5.server as ps
+        ps._OnewayCallThread.run = _ORIG_ONEWAY_RUN
+        _ORIG_ONEWAY_RUN = None
 
 
 def setup_config():
@@ -165,6 +194,7 @@ def setup_config():
         config.MAX_RETRIES = 0
     if _STOPPER is None:
         _STOPPER = Stopper()
+    patch_oneway_thread()
 
 
 def teardown_config():
@@ -173,6 +203,7 @@ def teardown_config():
     if _STOPPER is not None:
         _STOPPER.finish()
         _STOPPER = None
+    unpatch_oneway_thread()
     if _CONFIG_SAVED is not None:
         for k, v in _CONFIG_SAVED.items():
             setattr(config, k, v)
@@ -193,12 +224,11 @@ def start_server(case, world):
     from Pyro5.callcontext import current_context as cc
 
     def hs(conn, denied_reason=None):
-        world.hs.append((peer_port(conn), threading.current_thread()))
+        world.hs.append((peer_port(conn), threading.current_thread(), conn))
         return orig_hs(conn, denied_reason)
 
     def hr(conn):
-        entry = [peer_port(conn), threading.current_thread(), None]
-        world.reqs.append(entry)
+        world.reqs.append([conn, threading.current_thread(), peer_port(conn) is not None])
         return orig_hr(conn)
     d._handshake = hs
     d.handleRequest = hr
@@ -281,6 +311,7 @@ class ServerRun:
         self.facts = []         # for the oracle: one dict per reply / snapshot
         self.problems = []
         self.conn_thread = {}   # conn index -> model thread id
+        self.conn_obj = {}      # conn index -> server-side SocketConnection
 
     # -- helpers
     def thread_of_request(self, c, n_before=None):
@@ -306,7 +337,10 @@ class ServerRun:
     def canon_snapshot(self, raw, tok):
         w = self.world
         t = w.tid(raw["thread"])
-        client = self.ports.get(raw["client"], 9000)
+        client = 9000
+        for ci, obj in self.conn_obj.items():
+            if obj is raw["client"]:
+                client = ci
         addr = raw["client_sock_addr"]
         addr = self.ports.get(addr[1], 9001) if isinstance(addr, tuple) and len(addr) >= 2 else 9001
         anns = raw["annotations"]
@@ -346,7 +380,7 @@ class ServerRun:
         return [c, c, op["seq"], flags, serializers.serializers[op.get("ser", "serpent")].serializer_id,
                 op["tok"] if op.get("qann", True) else 0, op["tok"] if op.get("corr") else 0]
 
-    def user_code(self, t, steps, rq, op_index, stop_at_gate=False, start=0):
+    def user_code(self, t, steps, rq, op_index, stop_at_gate=False, start=0, addr_ok=None):
         """append the model events of a method body running on model thread t; returns index of the gate step or None"""
         for i in range(start, len(steps)):
             st = steps[i]
@@ -360,7 +394,8 @@ class ServerRun:
                     t_obs, fields = self.canon_snapshot(raw, st[1])
                     out = ["ctx", t_obs, st[1], fields]
                     self.outputs.append(out)
-                    self.facts.append({"what": "ctx", "op": op_index, "tok": st[1], "expected": rq, "out": out})
+                    self.facts.append({"what": "ctx", "op": op_index, "tok": st[1], "expected": rq, "out": out,
+                                       "addr_ok": addr_ok if addr_ok is not None else [rq[1]]})
             elif st[0] == "set":
                 self.events.append(["S", t, "Assign" if st[1] == "A" else "Update", list(st[2])])
             elif st[0] == "gate" and stop_at_gate:
@@ -390,6 +425,9 @@ class ServerRun:
         wait_for(lambda: any(e[0] == cl.port for e in self.world.hs[n_hs:]))
         th = [e[1] for e in self.world.hs[n_hs:] if e[0] == cl.port]
         t = self.world.tid(th[0]) if th else 901
+        for e in self.world.hs[n_hs:]:
+            if e[0] == cl.port:
+                self.conn_obj[c] = e[2]
         full = self.case["server"] == "thread" and self.busy_before >= self.case["pool"]
         h = {"ok": "HOk", "refused": "HRefused", "garbage": "HGarbage"}[how]
         if full and h == "HOk":
@@ -456,6 +494,10 @@ class ServerRun:
         data, hflags = build_invoke(op, method, (steps, bool(op.get("raise")), op["tok"]), flags, payload)
         self.all_calls.append(op)
         rq = self.expected_req(c, op, hflags)
+        late = kind == "oneway" and op.get("late") is not None
+        if late:
+            _PARK.update(started=threading.Event(), release=threading.Event(), thread=None)
+            _PARK["armed"] = True
         cl.send(data)
         gate = [st[1] for st in steps if st[0] == "gate"]
         if gate:
@@ -473,6 +515,24 @@ class ServerRun:
             m = cl.recv_msg()
             self.events.append(["X", t, c])
             self.add_reply(c, m, i, [])
+            return
+        if late:
+            # the new thread is held before it runs; meanwhile the serving thread handles other requests completely
+            park = dict(_PARK)
+            if not park["started"].wait(TMO):
+                self.problems.append("oneway thread of %d never started" % op["tok"])
+            _PARK["armed"] = False
+            o = self.world.tid(_PARK["thread"] if _PARK["thread"] is not None else object())
+            self.events.append(["W", t, o])
+            self.events.append(["D", t])
+            m = cl.recv_msg(timeout=0.003)
+            self.add_reply(c, m, i, [], expected=False)
+            for j, sub in enumerate(op["late"]):
+                self.do_op(2000 * (i + 1) + j, sub)
+            park["release"].set()
+            if not wait_for(lambda: op["tok"] in self.world.done):
+                self.problems.append("oneway method %d did not finish" % op["tok"])
+            self.user_code(o, steps, rq, i)
             return
         if kind == "oneway":
             ok = wait_for(lambda: op["tok"] in self.world.done)
@@ -509,6 +569,74 @@ class ServerRun:
         else:
             self.events.append(["R", t, c, False])
             self.add_reply(c, m, i, self.own_ids(steps))
+
+    def do_resetq(self, i, op):
+        """connection b's oneway request is queued at the server while the thread that will serve it is held inside a
+        method (holder); b then resets its connection; the holder is released and the thread serves the queued request of
+        a connection whose peer address can no longer be determined"""
+        from Pyro5 import protocol
+        b, call, hold = op["c"], op["call"], op["holder"]
+        clb = self.clients[b]
+        g = [st[1] for st in (hold.get("steps") or [s for mem in hold.get("members", []) for s in mem["steps"]]) if st[0] == "gate"][0]
+        self.world.gates[g] = threading.Event()
+        self.world.entered[g] = threading.Event()
+        hc = hold["c"]
+        if hold["op"] == "call":
+            data_h, hf = build_invoke(hold, "run", (hold["steps"], bool(hold.get("raise")), hold["tok"]), 0)
+        else:
+            calls = [("run", (mem["steps"], bool(mem.get("raise")), mem["tok"]), {}) for mem in hold["members"]]
+            data_h, hf = build_invoke(hold, "<batch>", calls, protocol.FLAGS_BATCH | protocol.FLAGS_ONEWAY)
+        self.all_calls.append(hold)
+        rq_h = self.expected_req(hc, hold, hf)
+        self.clients[hc].send(data_h)
+        if not self.world.entered[g].wait(TMO):
+            self.problems.append("holder never reached its gate")
+        th = self.thread_of_request(hc)
+        data_b, bf = build_invoke(call, "run", (call["steps"], False, call["tok"]), protocol.FLAGS_ONEWAY)
+        self.all_calls.append(call)
+        rq_b = self.expected_req(b, call, bf)
+        before = busy_count(self.srv)
+        clb.send(data_b)
+        time.sleep(0.01)
+        clb.reset()
+        self.open.discard(b)
+        time.sleep(0.03)                      # the reset reaches the server side socket
+        n = len(self.world.reqs)
+        self.world.gates[g].set()
+        self.events.append(["B", th, rq_h])
+        if hold["op"] == "call":
+            m = self.clients[hc].recv_msg()
+            self.user_code(th, hold["steps"], rq_h, i)
+            if hold.get("raise"):
+                self.events.append(["X", th, hc])
+                self.add_reply(hc, m, i, [])
+            else:
+                self.events.append(["R", th, hc, False])
+                self.add_reply(hc, m, i, self.own_ids(hold["steps"]))
+        else:
+            wait_for(lambda: hold["members"][-1]["tok"] in self.world.done)
+            for mem in hold["members"]:
+                self.user_code(th, mem["steps"], rq_h, i)
+            self.events.append(["D", th])
+        # was the queued request served at all (it is lost if the reset overtook it)?
+        if wait_for(lambda: call["tok"] in self.world.done, 1.5):
+            tb = self.thread_of_request(b)
+            cobj = self.conn_obj.get(b)
+            unknown = any(e[0] is cobj and not e[2] for e in self.world.reqs[n:])
+            if unknown:
+                rq_b[1] = 9001
+            self.events.append(["B", tb, rq_b])
+            o = None
+            for st in call["steps"]:
+                if st[0] == "snap" and st[1] in self.world.snaps:
+                    o = self.world.tid(self.world.snaps[st[1]]["thread"])
+            if o is None:
+                o = self.world.tid(object())
+            self.events.append(["W", tb, o])
+            self.user_code(o, call["steps"], rq_b, 3000 * (i + 1), addr_ok=[b, 9001])
+            self.events.append(["D", tb])
+        if not wait_for(lambda: busy_count(self.srv) <= before - 1, 3.0):
+            self.problems.append("op %d: reset connection %d still accounted for" % (i, b))
 
     def do_batch(self, i, op):
         from Pyro5 import protocol
@@ -560,6 +688,9 @@ class ServerRun:
             self.do_batch(i, op)
         elif k == "overlap":
             self.do_call(i, dict(op["call"], op="call"), inner=op["inner"])
+        elif k == "resetq":
+            if op["holder"]["c"] in self.open:
+                self.do_resetq(i, op)
         else:
             self.do_call(i, op)
 
@@ -695,7 +826,7 @@ def oracle(case, obs):
                                 % (f["kind"][1:], f["c"], f["op"], [key(x) for x in stale])))
             else:
                 seen, exp = f["seen"], f["expected"]
-                wrong = [FIELD_NAMES[j] for j in range(7) if seen[j] != exp[j]]
+                wrong = [FIELD_NAMES[j] for j in range(7) if (seen[j] not in f["addr_ok"] if j == 1 else seen[j] != exp[j])]
                 if wrong:
                     bad.append(("context-not-of-request",
                                 "the method of operation %s (token %d) read context field(s) %s that are not those of the request being served (saw %s, request has %s)"
@@ -727,6 +858,8 @@ def oracle(case, obs):
 
 # ---------------------------------------------------------------- Gallina
 def c_req(r):
+    if r[1] == 9001:
+        return "(peer_unknown (mkreq %s))" % clist([cN(x) for x in r])
     return "(mkreq %s)" % clist([cN(x) for x in r])
 
 
@@ -891,6 +1024,46 @@ def gen_server_case(rng, size=None):
                 others = [x for x in open_ if x != c]
                 if others:
                     ops.append(gen_callop(rng, tk, rng.choice(others), seqs, "call", raise_=False))
+        elif r < 0.985 and rng.random() < 0.75:
+            # a oneway call whose thread gets to run only after the serving thread has completely served other requests
+            call = gen_callop(rng, tk, c, seqs, "oneway")
+            if not any(st[0] == "snap" for st in call["steps"]):
+                call["steps"].append(["snap", tk.tok()])
+            call["raise"] = False
+            inner = []
+            for k in range(rng.choice([1, 1, 2])):
+                o = c if (server == "thread" or rng.random() < 0.3) else rng.choice(open_)
+                kind = "call" if k == 0 else rng.choice(["call", "ping", "batch"])
+                if kind == "ping":
+                    seqs[o] = (seqs.get(o, 0) + 1) & 0xffff
+                    inner.append({"op": "ping", "c": o, "seq": seqs[o]})
+                else:
+                    inner.append(gen_callop(rng, tk, o, seqs, kind))
+            call["late"] = inner
+            ops.append(call)
+        elif r < 0.985:
+            # a queued oneway request of a client that resets its connection before the (held) thread gets to serve it
+            others = [x for x in open_ if x != c]
+            call = gen_callop(rng, tk, c, seqs, "oneway")
+            call["steps"] = [["snap", tk.tok()]] + [st for st in call["steps"] if st[0] != "gate"]
+            call["raise"] = False
+            if server == "multiplex" and others:
+                hold = gen_callop(rng, tk, rng.choice(others), seqs, "call")
+                hold["steps"].insert(rng.randrange(len(hold["steps"]) + 1), ["gate", tk.tok()])
+            elif server == "thread":
+                hold = gen_callop(rng, tk, c, seqs, "batch")
+                hold["oneway"] = True
+                for mem in hold["members"]:
+                    mem["raise"] = False
+                hold["members"][0]["steps"].append(["gate", tk.tok()])
+            else:
+                hold = None
+            if hold is not None:
+                # the holder precedes the queued request on its connection
+                if hold["c"] == c:
+                    hold["seq"], call["seq"] = min(hold["seq"], call["seq"]), max(hold["seq"], call["seq"])
+                ops.append({"op": "resetq", "c": c, "holder": hold, "call": call})
+                open_.remove(c)
         else:
             # two calls in flight at once (thread server with a spare worker only)
             others = [x for x in open_ if x != c]
@@ -961,6 +1134,31 @@ def targeted():
                 out.append({"kind": "server", "server": server, "pool": pool, "dmn": dmn, "ops": base + [
                     {"op": "oneway", "c": 0, "seq": 2, "tok": 12, "ser": "serpent", "corr": True, "steps": [["snap", 13], ["set", mode, [14]]], "raise": False},
                     {"op": "call", "c": 0, "seq": 3, "tok": 15, "ser": "serpent", "corr": False, "steps": [["snap", 16]], "raise": False}]})
+    # a oneway thread scheduled late, and a request whose peer reset its connection while it was queued
+    out.append({"kind": "server", "server": "multiplex", "pool": 1, "dmn": [], "ops": [
+        {"op": "connect", "c": 0, "how": "ok"}, {"op": "connect", "c": 1, "how": "ok"},
+        {"op": "oneway", "c": 0, "seq": 41, "tok": 1, "ser": "serpent", "corr": True, "steps": [["snap", 2]], "raise": False,
+         "late": [{"op": "call", "c": 1, "seq": 701, "tok": 3, "ser": "json", "corr": True, "steps": [["snap", 4]], "raise": False}]}]})
+    out.append({"kind": "server", "server": "thread", "pool": 2, "dmn": [40001], "ops": [
+        {"op": "connect", "c": 0, "how": "ok"},
+        {"op": "oneway", "c": 0, "seq": 5, "tok": 1, "ser": "json", "corr": False, "steps": [["snap", 2], ["set", "U", [7]]], "raise": False,
+         "late": [{"op": "call", "c": 0, "seq": 6, "tok": 3, "ser": "marshal", "corr": True, "qann": False, "steps": [["snap", 4]], "raise": False},
+                  {"op": "ping", "c": 0, "seq": 7}]}]})
+    out.append({"kind": "server", "server": "multiplex", "pool": 1, "dmn": [], "ops": [
+        {"op": "connect", "c": 0, "how": "ok"}, {"op": "connect", "c": 1, "how": "ok"},
+        {"op": "resetq", "c": 1,
+         "holder": {"op": "call", "c": 0, "seq": 1, "tok": 1, "ser": "serpent", "corr": True, "steps": [["snap", 2], ["gate", 3]], "raise": False},
+         "call": {"op": "oneway", "c": 1, "seq": 1, "tok": 4, "ser": "serpent", "corr": True, "steps": [["snap", 5]], "raise": False}},
+        {"op": "call", "c": 0, "seq": 2, "tok": 6, "ser": "json", "corr": False, "steps": [["snap", 7]], "raise": False}]})
+    out.append({"kind": "server", "server": "thread", "pool": 1, "dmn": [], "ops": [
+        {"op": "connect", "c": 0, "how": "ok"},
+        {"op": "call", "c": 0, "seq": 1, "tok": 1, "ser": "serpent", "corr": False, "steps": [["snap", 2]], "raise": False},
+        {"op": "close", "c": 0},
+        {"op": "connect", "c": 1, "how": "ok"},
+        {"op": "resetq", "c": 1,
+         "holder": {"op": "batch", "c": 1, "seq": 1, "tok": 3, "ser": "serpent", "corr": False, "oneway": True,
+                    "members": [{"steps": [["snap", 4], ["gate", 5]], "raise": False, "tok": 6}]},
+         "call": {"op": "oneway", "c": 1, "seq": 2, "tok": 7, "ser": "json", "corr": True, "steps": [["snap", 8]], "raise": False}}]})
     for server in ("thread", "multiplex"):
         for dmn in ([], [40001]):
             out.append({"kind": "client", "server": server, "dmn": dmn, "ops": [
@@ -1030,7 +1228,9 @@ RULE = ("seeded random histories of 1-4 raw client connections against a real Da
         "THREADPOOL_SIZE 1/2/3 and THREADPOOL_SIZE_MIN 1, or multiplex): handshakes (accepted / unknown object / first message not CONNECT / "
         "refused because the pool is full), pings, calls that return or raise, oneway calls, batches (also oneway), unknown methods and objects, "
         "undecodable arguments, connection closes followed by new connections on the reused thread, and calls overlapping in time "
-        "(a method waits at a gate while other connections are served); every method records the context it reads and sets fresh annotation "
+        "(a method waits at a gate while other connections are served), oneway calls whose thread is held at the start of run() until the "
+        "serving thread has completely served other requests (late scheduling), and oneway requests queued behind a held method by a client "
+        "that then resets its connection (peer address unknown when served); every method records the context it reads and sets fresh annotation "
         "ids by assignment or item update; three serializers, with and without correlation id / request annotations; daemon annotations "
         "none/one/two.  Client half: real Proxy objects (call, raise, oneway, batch, unknown method, release + reconnect, new proxy).  "
         "non-trivial = at least three replies/snapshots observed; distinct = distinct case hash")
